@@ -3,7 +3,7 @@ import os
 import re
 from typing import Dict, Optional, List, Tuple
 
-from sympy import Eq, sympify, expand
+from sympy import Eq, Rel, sympify, expand
 from sympy import symbols, simplify, Expr, Add, Mul, Pow, Symbol, Float
 from sympy.core.numbers import Zero, NegativeOne, One, Integer, Rational, Half
 from sympy.logic.boolalg import BooleanTrue
@@ -284,6 +284,14 @@ def simplify_equality(
         decimal_digits=decimal_digits,
         should_remove_trailing_zeros=False,
     )
+    if is_number_string(pddl_left_side) and is_number_string(pddl_right_side):
+        # see simplify_inequality: the functions whose coefficients were rounded to zero are kept.
+        pddl_left_side = convert_expr_to_pddl(
+            simplified_equation.lhs,
+            symbolic_vars,
+            decimal_digits=decimal_digits,
+            should_remove_trailing_zeros=False,
+        )
 
     return f"(= {pddl_left_side} {pddl_right_side})"
 
@@ -314,6 +322,7 @@ def simplify_inequality(
     )
     left_expr = parse_expr(transformed_left_str, evaluate=False)
     right_expr = parse_expr(transformed_right_str, evaluate=False)
+    original_left_expr, original_right_expr = left_expr, right_expr
 
     for assumption_str in assumptions:
         # Parse the strings as sympy expressions
@@ -331,14 +340,32 @@ def simplify_inequality(
         left_expr = left_expr.subs(assumption.lhs, assumption.rhs)
         right_expr = right_expr.subs(assumption.lhs, assumption.rhs)
 
+    left_expr, right_expr = expand(left_expr), expand(right_expr)
+    if not left_expr.free_symbols and not right_expr.free_symbols:
+        # no function is left, and a comparison of two numbers is not a PDDL condition: when it holds, the
+        # inequality follows from the assumptions and is omitted; otherwise it is printed as it was given.
+        if Rel(left_expr, right_expr, inequality_operator) == True:
+            return None
+
+        left_expr, right_expr = original_left_expr, original_right_expr
+
     pddl_left_side = convert_expr_to_pddl(
-        expand(left_expr), symbolic_vars, decimal_digits=decimal_digits
+        left_expr, symbolic_vars, decimal_digits=decimal_digits
     )
     pddl_right_side = convert_expr_to_pddl(
-        expand(right_expr),
+        right_expr,
         symbolic_vars,
         decimal_digits=decimal_digits,
         should_remove_trailing_zeros=False,
     )
+    if is_number_string(pddl_left_side) and is_number_string(pddl_right_side):
+        # every function was removed together with its coefficient that was rounded to zero; they are kept so
+        # that the output is still a condition on the functions.
+        pddl_left_side = convert_expr_to_pddl(
+            left_expr,
+            symbolic_vars,
+            decimal_digits=decimal_digits,
+            should_remove_trailing_zeros=False,
+        )
 
     return f"({inequality_operator} {pddl_left_side} {pddl_right_side})"
